@@ -82,7 +82,7 @@ def run(replay=None):
                 mf = rng.choice([0.4, 0.3, 0.55, 0.8] if alg == 0 else [0.5, 0.8, 0.65])
                 p.cfg.append((alg, workers, mf, p.ncmd + 1))
                 p.emit(f"cancel {p.root} {alg} {workers} {f2h(mf)} {box} -1 0")
-    hout, hskip = common.run_cases_sharded(exe_h, [p.text() for p in shapes], shards=8, timeout=900, single_timeout=240)
+    hout, hskip = common.run_cases_sharded(exe_h, [p.text() for p in shapes], shards=8, timeout=900 if not quick else 400, single_timeout=120, max_offenders=3)
     for t in hskip:
         ck.violation("hang", "an uncancelled render did not terminate within the watchdog", {"program": t})
     H = parse_out(hout)
@@ -103,7 +103,7 @@ def run(replay=None):
                 ck.violation("no_mesh", "an uncancelled render returned no mesh", {"program": p.text(), "command": p.lines[cmd - 1], "detail": out[0]})
                 continue
             counts = [int(v) for v in f["counts"].split(",")]
-            base[(p.cid, alg, workers, mf)] = (int(f["tris"]), int(f["verts"]), f["closed"], counts)
+            base[(p.cid, alg, workers, mf)] = (int(f["tris"]), int(f["verts"]), f["closed"], counts, int(f.get("ms", 0)))
             if workers == 1:
                 if counts[0] == 1 + 8 * counts[2] and counts[6] == 1 and counts[8] == 1:
                     stats["single_worker_identity"] += 1
@@ -136,7 +136,7 @@ def run(replay=None):
                     q.tests.append((alg, workers, mf, si, k, q.ncmd + 1))
                     q.emit(f"cancel {p.root} {alg} {workers} {f2h(mf)} {box} {si} {k}")
         inj.append(q)
-    hout2, hskip2 = common.run_cases_sharded(exe_h, [q.text() for q in inj], shards=8, timeout=1800, single_timeout=600)
+    hout2, hskip2 = common.run_cases_sharded(exe_h, [q.text() for q in inj], shards=8, timeout=1800 if not quick else 500, single_timeout=60, max_offenders=3)
     for t in hskip2:
         ck.violation("hang", "a cancelled render did not return within the watchdog", {"program": t[:3000]})
     H2 = parse_out(hout2)
@@ -177,8 +177,12 @@ def run(replay=None):
                                  f"cancel raised at visit {k} of {SITES[si]}: the render returned a mesh of {f['tris']} triangles / "
                                  f"{f['verts']} vertices (closed={f['closed']}); the uncancelled mesh has {b[0]} / {b[1]} (closed={b[2]})",
                                  {"program": q.text()[:3000], "command": q.lines[cmd - 1], "detail": out[0]})
-            if int(f["ms"]) > 20000:
-                ck.violation("slow", "a cancelled render took more than 20 s to return", {"command": q.lines[cmd - 1], "detail": out[0]})
+            # "returns in bounded time": a render whose flag was raised must not take much longer than the complete render
+            # of the same shape (wall-clock times are load dependent - a loaded machine stretches both - so the bound is
+            # relative; a render that never returns is caught by the watchdog above)
+            if f["fired"] == "1" and int(f["ms"]) > max(20000, 10 * b[4] + 10000):
+                ck.violation("slow", f"a cancelled render took {f['ms']} ms to return (the complete render takes {b[4]} ms)",
+                             {"command": q.lines[cmd - 1], "detail": out[0]})
             if len(samples) < 4 and f["fired"] == "1":
                 samples.append({"command": q.lines[cmd - 1], "answer": out[0]})
     # ---- pass 3: the same cancellations under AddressSanitizer, with the cancelling worker held for 30 ms in the
@@ -217,10 +221,12 @@ def run(replay=None):
         def one(q):
             try:
                 r = subprocess.run([exe_a], input=q.text(), stdout=subprocess.PIPE, stderr=subprocess.PIPE, text=True,
-                                   errors="replace", timeout=1800, env=env)
+                                   errors="replace", timeout=1800 if not quick else 300, env=env)
                 return q, r.returncode, r.stderr
             except subprocess.TimeoutExpired:
                 return q, -1, "TIMEOUT"
+        if hskip2:
+            aprogs = aprogs[:2]          # cancelled renders already hang: do not wait for every program's timeout
         with ThreadPoolExecutor(max_workers=6) as ex:
             for q, rc, err in ex.map(one, aprogs):
                 if "ERROR: AddressSanitizer" in err:
